@@ -5,6 +5,13 @@ HERE = os.path.dirname(os.path.abspath(__file__))
 ALL = ["C%02d" % i for i in range(1, 21)]
 
 CHECKS = {
+ "C02": dict(
+  engine="girvm",
+  technique="differential execution across frontends: one core program rendered into 7 languages, each rendering lowered by a real `lang` run and executed by the reference GIR executor under one common semantics, compared with the core reference interpreter; renderers validated at run time by CPython, node, javac/java and gcc; attribution by named compensation switches",
+  category="exploration",
+  text="G-core programs (ints, strings, locals, + - *, comparisons, and/or, if/else, while, counted for, break/continue, functions, calls, return, a record type, int arrays) are rendered for Python, JavaScript, TypeScript, Java, Go, C and PHP; every rendering is lowered by the real language phase and the emitted GIR is executed by girvm, which knows only the documented instruction vocabulary (an unknown operation/column is opaque, never guessed). Outputs must equal the reference interpreter's. A failing case is re-executed with all compensation switches (each emulating one repaired lowering), the needed set is minimised, every switch is reported under its own signature and the case must then pass completely; anything else is an unexplained violation. The evidence lists the vocabulary each frontend emitted and how many renderings a real runtime validated. 90 programs x 7 languages quick, 1500 x 7 thorough.",
+  note="Trusted: the core reference interpreter (validated per program by CPython/node/java/gcc through the renderers); Go and PHP renderings cannot be validated by a runtime offline and are trusted as syntax-directed; girvm's reading of the documentation. Language-dependent in the executor: operators, literal spellings, entry/output conventions (DESIGN Appendix B), function-level hoisting for Python/PHP.",
+  design="DESIGN.md §C02, Appendix A/B"),
  "C18": dict(
   engine="fs-monitor",
   technique="filesystem monitoring of real runs: before/after inventory (kind, size, SHA-256, link target, mode) of a canary-filled scratch tree, sys.addaudithook log of every mutating Python-level operation resolved to real paths, and strace -f of true CLI runs, over an enumerated space of workspace/input path configurations",
